@@ -25,6 +25,9 @@ pub enum Unk {
     EntityAttr,
     /// principal unknown and context attribute unknown
     PrincipalAndContextAttr,
+    /// principal unknown AND attribute `nick` of User::"a" unknown: the attribute unknown is only
+    /// reached through the other unknown (two-level discovery, after seed C13-b2)
+    PrincipalAndEntityAttr,
     /// nothing unknown, but the store is partial with User::"b" omitted
     PartialStore,
 }
@@ -99,6 +102,13 @@ fn touching(u: &Unk) -> Vec<E> {
             E::Like(b(E::attr(p.clone(), "nick")), vec![Pat::Char('a'), Pat::Star]),
             E::has(p.clone(), "nick"),
             E::bin(BinOp::Eq, E::attr(E::Ent(ua()), "nick"), E::attr(E::Ent(ub()), "nick")),
+        ],
+        Unk::PrincipalAndEntityAttr => vec![
+            E::bin(BinOp::Eq, E::attr(p.clone(), "nick"), E::str("al")),
+            E::and(E::has(p.clone(), "nick"), E::Like(b(E::attr(p.clone(), "nick")), vec![Pat::Char('a'), Pat::Star])),
+            E::bin(BinOp::Eq, E::attr(p.clone(), "nick"), E::attr(E::Ent(ub()), "nick")),
+            E::bin(BinOp::Gt, E::attr(p.clone(), "age"), E::Long(1)),
+            E::bin(BinOp::HasTag, p.clone(), E::attr(p.clone(), "nick")),
         ],
         Unk::PartialStore => vec![
             E::bin(BinOp::Gt, E::attr(E::attr(p.clone(), "mgr"), "age"), E::Long(1)),
@@ -181,10 +191,13 @@ pub struct Sigma {
     pub context: Option<BTreeMap<String, Val>>,
     pub u: Option<Val>,
     pub v: Option<Val>,
+    /// data of the entity a partial store omits, in the completed store
+    /// (bit 1: tag t1 present, bit 2: nick present, bit 4: member of Group::"h")
+    pub bv: Option<u8>,
 }
 
 fn sigmas(u: &Unk) -> Vec<Sigma> {
-    let none = Sigma { principal: None, resource: None, context: None, u: None, v: None };
+    let none = Sigma { principal: None, resource: None, context: None, u: None, v: None, bv: None };
     let mut out = Vec::new();
     match u {
         Unk::Principal { typed } => {
@@ -250,8 +263,19 @@ fn sigmas(u: &Unk) -> Vec<Sigma> {
                 }
             }
         }
+        Unk::PrincipalAndEntityAttr => {
+            for p in [ua(), ub(), uz()] {
+                for x in [Val::Str("al".into()), Val::Str("zz".into()), Val::Long(1)] {
+                    out.push(Sigma { principal: Some(p.clone()), v: Some(x), ..none.clone() });
+                }
+            }
+        }
         Unk::PartialStore => {
-            out.push(none.clone());
+            // every shape of the omitted entity (after seed C13-b1: what partial evaluation says
+            // about an entity the partial store lacks must hold however it is completed)
+            for bv in 0..8u8 {
+                out.push(Sigma { bv: Some(bv), ..none.clone() });
+            }
         }
     }
     out
@@ -279,9 +303,9 @@ pub struct PartialInputs {
 fn partial_inputs(u: &Unk) -> Result<PartialInputs, String> {
     let store = base_store();
     let mut rb = cedar_policy::Request::builder().action(c_uid(&view()));
-    let p_unknown = matches!(u, Unk::Principal { .. } | Unk::PrincipalAndContextAttr);
+    let p_unknown = matches!(u, Unk::Principal { .. } | Unk::PrincipalAndContextAttr | Unk::PrincipalAndEntityAttr);
     rb = match u {
-        Unk::Principal { typed: true } | Unk::PrincipalAndContextAttr => rb.unknown_principal_with_type(tn("User")),
+        Unk::Principal { typed: true } | Unk::PrincipalAndContextAttr | Unk::PrincipalAndEntityAttr => rb.unknown_principal_with_type(tn("User")),
         Unk::Principal { typed: false } => rb,
         _ => rb.principal(c_uid(&ua())),
     };
@@ -303,7 +327,7 @@ fn partial_inputs(u: &Unk) -> Result<PartialInputs, String> {
     }
     let req = rb.build();
     let ents = match u {
-        Unk::EntityAttr => {
+        Unk::EntityAttr | Unk::PrincipalAndEntityAttr => {
             let mut list = Vec::new();
             for (uid, e) in &store.ents {
                 if *uid == ua() {
@@ -339,6 +363,20 @@ fn concrete_inputs(s: &Sigma) -> (Req, Store) {
     }
     if let Some(x) = &s.v {
         store.ents.get_mut(&ua()).unwrap().attrs.insert("nick".into(), x.clone());
+    }
+    if let Some(bv) = s.bv {
+        let e = store.ents.get_mut(&ub()).unwrap();
+        e.tags.clear();
+        if bv & 1 != 0 {
+            e.tags.insert("t1".into(), Val::Str("x".into()));
+        }
+        if bv & 2 == 0 {
+            e.attrs.remove("nick");
+        }
+        e.parents.clear();
+        if bv & 4 != 0 {
+            e.parents.insert(gh());
+        }
     }
     let req = Req { principal: s.principal.clone().unwrap_or(ua()), action: view(), resource: s.resource.clone().unwrap_or(dd()), context: ctx };
     (req, store)
@@ -384,6 +422,7 @@ pub fn run(tier: Tier, replay_file: Option<&str>) -> i32 {
         Unk::ContextAttr,
         Unk::EntityAttr,
         Unk::PrincipalAndContextAttr,
+        Unk::PrincipalAndEntityAttr,
         Unk::PartialStore,
     ];
     let auth = cedar_policy::Authorizer::new();
@@ -527,8 +566,8 @@ pub fn run(tier: Tier, replay_file: Option<&str>) -> i32 {
         ctx.sample(json!({"unknown": format!("{u:?}"), "policy": sets[sets.len() / 3].iter().map(|p| p.text(&st)).collect::<Vec<_>>(), "substitutions": sig.len()}));
     }
     ctx.finish(
-        "9 kinds of unknown input (principal/resource typed or untyped, whole context, one context attribute, one entity attribute, principal + context attribute, partial store) x policy sets of 1-2 policies whose bodies put an unknown-touching operand against a constant / erroring / non-boolean operand in 19 shapes (&&, ||, if in every position, !, record projection, has on record literal, set membership, ==) x all substitutions from typed 3-5 value domains (wrong-type values only for untyped unknowns); case = (unknown kind, policy set) and each substitution; all non-trivial",
-        json!({"tier": tier.name(), "unknown_kinds": 9, "shapes": 19}),
+        "10 kinds of unknown input (principal/resource typed or untyped, whole context, one context attribute, one entity attribute, principal + context attribute, principal + entity attribute reached through it, partial store completed with the omitted entity in 8 shapes) x policy sets of 1-2 policies whose bodies put an unknown-touching operand against a constant / erroring / non-boolean operand in 19 shapes (&&, ||, if in every position, !, record projection, has on record literal, set membership, ==) x all substitutions from typed 3-5 value domains (wrong-type values only for untyped unknowns); case = (unknown kind, policy set) and each substitution; all non-trivial",
+        json!({"tier": tier.name(), "unknown_kinds": 10, "shapes": 19}),
         &["the fully concrete response is computed by the real authorizer AND the reference authorizer; both must agree"],
         true,
     )
